@@ -385,6 +385,34 @@ def expr_ast(e, scale_ci, scale_diff):
     raise ValueError(t)
 
 
+def raw_ast(e):
+    """AST tuple that Analyser::analyseNode builds for expression `e` BEFORE unit scaling, with real
+    DIFF(BVAR(CI t), CI x) nodes (expr_ast replaces a derivative by a made-up CI because the generator prints it as an
+    atom).  Input of the Coq model of the scaling pass (ScaleDefs.analysed_ast)."""
+    if e[0] == "diff":
+        return ("DIFF", None, ("BVAR", None, ("CI", e[2], None, None), None), ("CI", e[1], None, None))
+    if e[0] == "pw":
+        pieces = [("PIECE", None, raw_ast(v), raw_ast(c)) for v, c in e[1]]
+        if e[2] is not None:
+            pieces.append(("OTHERWISE", None, raw_ast(e[2]), None))
+        if len(pieces) == 1:
+            return ("PIECEWISE", None, pieces[0], None)
+        right = pieces[-1]
+        for pc in reversed(pieces[1:-1]):
+            right = ("PIECEWISE", None, pc, right)
+        return ("PIECEWISE", None, pieces[0], right)
+    if e[0] == "ap":
+        typ = MATHML_TO_AST[e[1]]
+        args = [raw_ast(a) for a in e[2]]
+        q = e[3] if len(e) > 3 else None
+        if q is not None:
+            return (typ, None, ("DEGREE" if e[1] == "root" else "LOGBASE", None, raw_ast(q), None), args[0])
+        if len(args) == 1:
+            return (typ, None, args[0], None)
+        return _fold_right(typ, args)
+    return expr_ast(e, lambda n: None, lambda x, t: (None, None))
+
+
 def predicted_primaries(desc, ev=None):
     """{class index: (component, variable)} the analyser is expected to choose as AnalyserVariable::variable():
     voi: the member in the first component (document order) that has one; constants: the initialised variable;
